@@ -42,10 +42,10 @@ type ConsumerActor struct {
 // SimCfg are the per-run knobs (swarm): sizes, rates, enabled fault kinds.
 type SimCfg struct {
 	NVal, NProv, NCons, NDeleg, NSpecs, NPlans int
-	Steps                                     int
-	Weights                                   map[string]int
-	Faults                                    map[string]bool
-	BlockTime                                 time.Duration
+	Steps                                      int
+	Weights                                    map[string]int
+	Faults                                     map[string]bool
+	BlockTime                                  time.Duration
 }
 
 const (
@@ -150,11 +150,11 @@ func NewSim(r *simrt.Run, cfg SimCfg) *Sim {
 	return s
 }
 
-func (s *Sim) pickVal() *Account  { return s.Validators[s.R.Draw("ops", len(s.Validators))] }
+func (s *Sim) pickVal() *Account        { return s.Validators[s.R.Draw("ops", len(s.Validators))] }
 func (s *Sim) pickProv() *ProviderActor { return s.Providers[s.R.Draw("ops", len(s.Providers))] }
 func (s *Sim) pickCons() *ConsumerActor { return s.Consumers[s.R.Draw("ops", len(s.Consumers))] }
 func (s *Sim) pickSpec() spectypes.Spec { return s.Specs[s.R.Draw("ops", len(s.Specs))] }
-func (s *Sim) pickPlan() string        { return s.PlanNames[s.R.Draw("ops", len(s.PlanNames))] }
+func (s *Sim) pickPlan() string         { return s.PlanNames[s.R.Draw("ops", len(s.PlanNames))] }
 func (s *Sim) pickDeleg() *Account {
 	// delegators include vaults and consumers sometimes: anybody may delegate
 	n := len(s.Delegators)
